@@ -90,6 +90,46 @@ func C01(c *core.Ctx) {
 	impls := p.Implementations(strat)
 	c.Floor("R1.6", "Strategy implementations", len(impls), 2)
 
+	// ---- R1.11 the in-record holds what the face supplied last, whether the record is new
+	// or already existed (token echoed downstream, nonce)
+	if fn := c.Fn("R1.11", "fw/table", "basePitEntry", "InsertInRecord"); fn != nil {
+		recordBranchAgreement(c, "R1.11", fn, "PitInRecord", ssa.Value(fn.Params[2]), map[string]string{
+			"PitToken": "a face that re-expresses the Interest with a new PIT token gets the Data back with the token of its earlier Interest — downstream that token names no (or another) pending Interest and the Data is dropped or misdelivered",
+		}, "PitToken", "ExpirationTime")
+	}
+
+	// ---- R1.10 collections of downstream faces are per PIT entry: a map that is ranged
+	// over inside a loop (to emit Data) is allocated inside that loop too; allocated
+	// outside, it still holds the faces of the entries handled before
+	nMaps := 0
+	core.Instrs(pid, func(in ssa.Instruction) {
+		mm, ok := in.(*ssa.MakeMap)
+		if !ok {
+			return
+		}
+		for _, r := range core.Refs(mm) {
+			rg, ok := r.(*ssa.Range)
+			if !ok {
+				continue
+			}
+			nMaps++
+			made := map[*ssa.BasicBlock]bool{}
+			for _, h := range enclosingLoops(mm.Block()) {
+				made[h] = true
+			}
+			// the range's own loop header is the block of its Next; every loop around
+			// the Range instruction itself must also be around the allocation
+			stale := ""
+			for _, h := range enclosingLoops(rg.Block()) {
+				if !made[h] {
+					stale = p.Pos(h.Instrs[0].Pos())
+				}
+			}
+			c.Decide(stale == "", "R1.10", fmt.Sprintf("downstream-set-per-entry#%d", nMaps), c.Pos(mm), "the set of downstream faces is allocated in the iteration that consumes it", "processIncomingData ranges over a face set inside a loop that does not allocate it afresh: the faces of PIT entries handled earlier are still in it, so they receive the Data again (one copy per later matching entry)")
+		}
+	})
+	c.Floor("R1.10", "face sets ranged over in processIncomingData", nMaps, 1)
+
 	// ---- R1.1 who may call
 	n := 0
 	for _, ci := range p.Callers(pod) {
